@@ -396,7 +396,7 @@ def on_surface(ctx):
     # Newton step
     nr = P.func('NewtonRaphsonGeometry.distance')
     res.saw(nr)
-    loop = [s for s in nr.node.body if isinstance(s, ast.For)]
+    loop = [s for s in nr.node.body if isinstance(s, (ast.For, ast.While))]
     if len(loop) != 1:
         raise AnalysisError('NewtonRaphsonGeometry.distance: iteration loop '
                             'not found')
@@ -413,6 +413,15 @@ def on_surface(ctx):
         for s in loop[0].body:
             if isinstance(s, ast.If):
                 continue
+            # bookkeeping of the stopping rule (residual, counter) is judged
+            # below, not evaluated
+            if isinstance(s, (ast.Assign, ast.AugAssign)):
+                tg = s.targets[0] if isinstance(s, ast.Assign) else s.target
+                used = {x.id for st2 in loop[0].body for x in ast.walk(st2)
+                        if isinstance(x, ast.Name) and st2 is not s and
+                        not isinstance(st2, ast.If)}
+                if isinstance(tg, ast.Name) and tg.id not in used:
+                    continue
             evn.stmt(s)
     except Inconclusive as e:
         raise AnalysisError(f'Newton step outside fragment: {e}')
@@ -442,10 +451,41 @@ def on_surface(ctx):
         res.fail(ctx.finding('ON-SURFACE', nr, loop[0],
                              'sag is not evaluated at the current (x, y) of '
                              'the iterate', construct='Newton sag arguments'))
-    from ..match import find_seq
-    if find_seq(loop[0], ['$dz = $p[:, 2] - $zs',
-                          'if np.max(np.abs($dz)) < self.tol:\n    break']):
+    from ..match import find_seq, find
+    stop_ok, stop_msg = False, None
+    if isinstance(loop[0], ast.For):
+        stop_ok = bool(find_seq(loop[0], [
+            '$dz = $p[:, 2] - $zs',
+            'if np.max(np.abs($dz)) < self.tol:\n    break']))
+    else:
+        # while form: continue while NOT (residual < tol); the residual is
+        # the batch maximum of |dz| computed in the body.  `residual >= tol`
+        # is not the same predicate: with a lost (NaN) ray in the batch it is
+        # False and the loop stops with every other ray unconverged.
+        t = loop[0].test
+        conds = t.values if isinstance(t, ast.BoolOp) and isinstance(
+            t.op, ast.And) else [t]
+        for b in find_seq(loop[0], ['$dz = $p[:, 2] - $zs',
+                                    '$e = np.max(np.abs($dz))']):
+            en = unparse(b['e'])
+            for c in conds:
+                cs_ = unparse(c)
+                if cs_ in (f'not {en} < self.tol', f'not ({en} < self.tol)'):
+                    stop_ok = True
+                elif isinstance(c, ast.Compare) and unparse(c.left) == en \
+                        and isinstance(c.ops[0], (ast.GtE, ast.Gt)) and \
+                        unparse(c.comparators[0]) == 'self.tol':
+                    stop_msg = (
+                        f'the loop continues while {cs_}: when any ray of '
+                        f'the batch has a non-finite residual the comparison '
+                        f'is False and the iteration stops with all other '
+                        f'rays unconverged (the original rule, stop when '
+                        f'max|dz| < tol, keeps iterating)')
+    if stop_ok:
         res.ok('iteration stops when max over the batch of |dz| < tol')
+    elif stop_msg:
+        res.fail(ctx.finding('ON-SURFACE', nr, loop[0], stop_msg,
+                             construct='Newton stopping rule'))
     else:
         res.fail(ctx.finding(
             'ON-SURFACE', nr, loop[0],
